@@ -14,7 +14,7 @@ lines = ["# Independently seeded property-breaking changes",
  "",
  "| seed | property | what the change does | needs | caught by | missed by (history) |",
  "|---|---|---|---|---|---|"]
-for d in sorted(glob.glob(os.path.join(root, "seeded", "*", "meta.json"))):
+for d in sorted([d for d in glob.glob(os.path.join(root, "seeded", "*", "meta.json")) if "_not_kept" not in d]):
     name = os.path.basename(os.path.dirname(d))
     m = json.load(open(d))
     r = res.get(name, {})
